@@ -10,6 +10,7 @@ import ast
 
 from ..cfg import CFG, EXIT, RAISE, PathBound
 from ..model import real_body, u, walk_no_nested
+from .. import norm
 
 MAPS = ("fwd", "bck")
 OTHER = {"fwd": "bck", "bck": "fwd"}
@@ -93,6 +94,31 @@ def r1_who_may_write(ctx) -> None:
                 nsites += len(reads)
                 ctx.ok("C18.R1", f"{m.name}.{owner + '.' if owner else ''}{fn.name}", f"{len(reads)} read-only uses of fwd/bck")
     ctx.stats["C18.R1 sites outside BiMap"] = nsites
+
+
+def private_helpers(cls) -> set[str]:
+    """private (single underscore) methods of BiMap that other BiMap methods call as statements on self"""
+    out = set()
+    for fn in cls.methods.values():
+        for n in ast.walk(fn):
+            if isinstance(n, ast.Call) and isinstance(n.func, ast.Attribute) and isinstance(n.func.value, ast.Name) and n.func.value.id == "self" \
+                    and n.func.attr.startswith("_") and not n.func.attr.startswith("__") and n.func.attr in cls.methods and n.func.attr != fn.name:
+                out.add(n.func.attr)
+    return out
+
+
+def r1_helpers_private(ctx, cls, helpers) -> None:
+    """a helper that is judged only in the context of its callers must not be callable from elsewhere"""
+    if not helpers:
+        return
+    for m in ctx.program.modules.values():
+        for fn, owner in _functions(m):
+            if owner == "BiMap" and m.name == "hugr.utils":
+                continue
+            for n in ast.walk(fn):
+                if isinstance(n, ast.Call) and isinstance(n.func, ast.Attribute) and n.func.attr in helpers:
+                    ctx.fail("C18.R1", f"{m.name}.{owner + '.' if owner else ''}{fn.name}", m.path, n.lineno,
+                             f"calls BiMap's private helper {n.func.attr} from outside BiMap: it performs half of a paired update", n)
 
 
 def _functions(m):
@@ -261,8 +287,8 @@ def _scan_expr(e: ast.AST, st: PathState) -> None:
 def analyse_mutator(ctx, cls, fn: ast.FunctionDef, file) -> int:
     """returns number of paths analysed"""
     name = f"hugr.utils.BiMap.{fn.name}"
-    body = real_body(fn)
-    for n in ast.walk(fn):
+    body = norm.inline_helpers(fn, norm.class_helper_lookup(cls))
+    for n in [x for b_ in body for x in ast.walk(b_)]:
         if isinstance(n, (ast.For, ast.While, ast.Try, ast.With)) and any(
                 self_map(x) for x in ast.walk(n) if isinstance(x, ast.Attribute)):
             # loops/try around map writes are outside the enumerated idioms: judge conservatively
@@ -399,7 +425,8 @@ def r4_construction(ctx, cls, file) -> None:
     fn = cls.methods.get("__init__")
     if fn is None:
         ctx.broken("anchor vanished: BiMap.__init__")
-    g = CFG(real_body(fn))
+    # canonical form: helpers inlined, accumulate loops as comprehensions, pure temporaries substituted
+    g = CFG(norm.forward_subst(norm.normalise_loops(norm.inline_helpers(fn, norm.class_helper_lookup(cls)))))
     raises = [n for n, s in g.stmt.items() if isinstance(s, ast.Raise) and s.exc is not None and "NotBijection" in u(s.exc)]
     dom = g.dominators()
     stores = {mp: [n for n, s in g.stmt.items() if isinstance(s, ast.Assign) and any(
@@ -560,9 +587,10 @@ def r5_delegation(ctx, cls, file) -> None:
         p = params(fn)
         good = False
         if isinstance(e, ast.Call) and isinstance(e.func, ast.Attribute) and isinstance(e.func.value, ast.Name) and e.func.value.id == "self":
-            args = [u(a) for a in e.args]
             want = p if order == "same" else list(reversed(p))
-            if e.func.attr == target and args == want and not e.keywords:
+            tfn = cls.methods.get(target)
+            bound = norm.bind_call(tfn, e, True) if tfn is not None and e.func.attr == target else None
+            if bound is not None and [u(bound[x]) for x in params(tfn)] == want:
                 good = True
         if good:
             ctx.ok("C18.R5", q + mname, f"delegates to {target}({order})")
@@ -618,12 +646,16 @@ def run(ctx) -> None:
     r1_who_may_write(ctx)
     npaths = 0
     nmut = 0
+    helpers = private_helpers(cls)
+    r1_helpers_private(ctx, cls, helpers)
     for name, fn in cls.methods.items():
-        if name == "__init__":
-            continue
-        touches = any(isinstance(n, ast.Subscript) and self_map(n.value) and isinstance(n.ctx, (ast.Store, ast.Del)) for n in ast.walk(fn)) \
-            or any(isinstance(n, ast.Call) and isinstance(n.func, ast.Attribute) and n.func.attr in DICT_MUTATORS and self_map(n.func.value) for n in ast.walk(fn)) \
-            or any(isinstance(n, ast.Attribute) and n.attr in MAPS and isinstance(n.ctx, (ast.Store, ast.Del)) for n in ast.walk(fn))
+        if name == "__init__" or name in helpers:
+            continue            # helpers are analysed in the context of every caller (inlined)
+        body = norm.inline_helpers(fn, norm.class_helper_lookup(cls))
+        nodes = [n for b_ in body for n in ast.walk(b_)]
+        touches = any(isinstance(n, ast.Subscript) and self_map(n.value) and isinstance(n.ctx, (ast.Store, ast.Del)) for n in nodes) \
+            or any(isinstance(n, ast.Call) and isinstance(n.func, ast.Attribute) and n.func.attr in DICT_MUTATORS and self_map(n.func.value) for n in nodes) \
+            or any(isinstance(n, ast.Attribute) and n.attr in MAPS and isinstance(n.ctx, (ast.Store, ast.Del)) for n in nodes)
         if touches:
             nmut += 1
             npaths += analyse_mutator(ctx, cls, fn, file)
